@@ -235,7 +235,7 @@ func specIsHelperName(name string) bool {
 //@   ensures[C16] frame: sameExcept(c, old(c), "startCode")
 //
 //@ func (*converter).ProgramEnd
-//@   ensures[C03,C16] helpers-iff-used: catEq(c.startCode, old(c.startCode), specHelpers(old(c.sliceAssignmentHelperRequired), old(c.sliceCopyHelperRequired), old(c.stringSubscriptHelperRequired)))
+//@   ensures[C03,C16,C10] helpers-iff-used: catEq(c.startCode, old(c.startCode), specHelpers(old(c.sliceAssignmentHelperRequired), old(c.sliceCopyHelperRequired), old(c.stringSubscriptHelperRequired)))
 //@   ensures[C16] code-untouched: c.code == old(c.code) && result == nil
 //
 //@ func (*converter).VarDefinition
@@ -302,7 +302,7 @@ func specIsHelperName(name string) bool {
 //
 //@ func (*converter).ForStart
 //@   requires[C01] open-flags-allocated: forall(k, 0, len(c.fors), c.fors[k] < c.forCounter)
-//@   ensures[C01] fresh-flag: appended(c.fors, old(c.fors), old(c.forCounter)) && c.forCounter == old(c.forCounter) + 1
+//@   ensures[C01,C10] fresh-flag: appended(c.fors, old(c.fors), old(c.forCounter)) && c.forCounter == old(c.forCounter) + 1
 //@   ensures[C01] flag-not-shared-with-open-loop: forall(k, 0, len(old(c.fors)), old(c.fors)[k] != c.fors[len(c.fors) - 1])
 //@   ensures[C01] invariant-kept: forall(k, 0, len(c.fors), c.fors[k] < c.forCounter)
 //@   ensures[C01,C16] lines: appended(c.code, old(c.code), "_fv" + itoa(old(c.forCounter)) + "=", "while true; do") && result == nil
@@ -396,8 +396,8 @@ func specIsHelperName(name string) bool {
 //@   loop @"range values" invariant[C03] words-so-far: vals == specSliceVals(values, rangeindex + 1)
 //@   loop @"range values" invariant[C03] two-lines-so-far: appended(c.code, old(c.code), "_dvc=$((${_dvc}+1))", specAssign(specName(len(c.funcs) > 0, c.funcCounter, specHelperName(old(c.varCounter)), false), "_dv${_dvc}"))
 //@   loop @"range values" invariant[C03] frame: sameExcept(c, old(c), "code", "varCounter") && c.varCounter == old(c.varCounter) + 1
-//@   ensures[C03] counter-bumped-before-naming: len(c.code) >= len(old(c.code)) + 2 && samePrefix(old(c.code), c.code) && c.code[len(old(c.code))] == "_dvc=$((${_dvc}+1))" && c.code[len(old(c.code)) + 1] == specAssign(specName(len(c.funcs) > 0, c.funcCounter, specHelperName(old(c.varCounter)), false), "_dv${_dvc}")
-//@   ensures[C03] empty-literal-two-lines: len(values) == 0 ==> len(c.code) == len(old(c.code)) + 2
+//@   ensures[C03,C10] counter-bumped-before-naming: len(c.code) >= len(old(c.code)) + 2 && samePrefix(old(c.code), c.code) && c.code[len(old(c.code))] == "_dvc=$((${_dvc}+1))" && c.code[len(old(c.code)) + 1] == specAssign(specName(len(c.funcs) > 0, c.funcCounter, specHelperName(old(c.varCounter)), false), "_dv${_dvc}")
+//@   ensures[C03,C10] empty-literal-two-lines: len(values) == 0 ==> len(c.code) == len(old(c.code)) + 2
 //@   ensures[C03] elements-in-order: len(values) > 0 ==> len(c.code) == len(old(c.code)) + 3 && c.code[len(old(c.code)) + 2] == "eval \"" + specRef(specName(len(c.funcs) > 0, c.funcCounter, specHelperName(old(c.varCounter)), false)) + "=(" + strings.TrimSpace(specSliceVals(values, len(values))) + ")\""
 //@   ensures[C03,C10] result-is-the-fresh-helper: result == specRef(specName(len(c.funcs) > 0, c.funcCounter, specHelperName(old(c.varCounter)), false)) && c.varCounter == old(c.varCounter) + 1 && err == nil
 //@   ensures[C03] frame: sameExcept(c, old(c), "code", "varCounter")
@@ -434,7 +434,7 @@ func specIsHelperName(name string) bool {
 //@   ensures[C17] frame: sameExcept(c, old(c), "code", "varCounter")
 //
 //@ func (*converter).WriteFile
-//@   ensures[C17] selector-then-echo: appended(c.code, old(c.code), specAssign(specName(len(c.funcs) > 0, c.funcCounter, specHelperName(old(c.varCounter)), false), "$(if [ \"" + append + "\" -eq \"1\" ]; then echo \">>\"; else echo \">\"; fi)"), "eval \"echo \\\"" + content + "\\\" " + specRef(specName(len(c.funcs) > 0, c.funcCounter, specHelperName(old(c.varCounter)), false)) + " " + path + "\"") && result == nil
+//@   ensures[C17,C08] selector-then-echo: appended(c.code, old(c.code), specAssign(specName(len(c.funcs) > 0, c.funcCounter, specHelperName(old(c.varCounter)), false), "$(if [ \"" + append + "\" -eq \"1\" ]; then echo \">>\"; else echo \">\"; fi)"), "eval \"echo \\\"" + content + "\\\" " + specRef(specName(len(c.funcs) > 0, c.funcCounter, specHelperName(old(c.varCounter)), false)) + " " + path + "\"") && result == nil
 //@   ensures[C17] frame: sameExcept(c, old(c), "code", "varCounter") && c.varCounter == old(c.varCounter) + 1
 //
 //@ func (*converter).Input
@@ -447,7 +447,7 @@ func specIsHelperName(name string) bool {
 //@   ensures[C03,C10] result-is-the-fresh-helper: result == specRef(specName(len(c.funcs) > 0, c.funcCounter, specHelperName(old(c.varCounter)), false)) && c.varCounter == old(c.varCounter) + 1
 //
 //@ func (*converter).FuncCall
-//@   loop @"range argsCopy" invariant[C02] quoted-so-far: len(args) == len(old(args)) && forall(k, 0, rangeindex + 1, args[k] == "\"" + old(args)[k] + "\"") && forall(k, rangeindex + 1, len(args), args[k] == old(args)[k])
+//@   loop @"range argsCopy" invariant[C02,C08] quoted-so-far: len(args) == len(old(args)) && forall(k, 0, rangeindex + 1, args[k] == "\"" + old(args)[k] + "\"") && forall(k, rangeindex + 1, len(args), args[k] == old(args)[k])
 //@   loop @"range argsCopy" invariant[C02] frame: sameExcept(c, old(c))
 //@   loop @"range returnTypes" invariant[C02] copies-so-far: len(returnValues) == rangeindex + 1 && len(c.code) == len(old(c.code)) + 2 + rangeindex && samePrefix(old(c.code), c.code) && c.varCounter == old(c.varCounter) + rangeindex + 1
 //@   loop @"range returnTypes" invariant[C02] call-line-kept: c.code[len(old(c.code))] == name + " " + strings.Join(args, " ") && forall(k, 0, len(args), args[k] == "\"" + old(args)[k] + "\"") && len(args) == len(old(args))
